@@ -33,7 +33,7 @@ def to_native(v):
         for k, x in v["cells"].items():
             idx = tuple(int(i) for i in k.split(",")) if k else ()
             xv = to_native(x)
-            a[idx] = xv if isinstance(xv, (int, float)) else 0.0
+            a[idx] = xv if isinstance(xv, (int, float)) else (float("nan") if xv == "nan" else 0.0)
         return a
     if isinstance(v, dict) and "__tuple__" in v:
         return tuple(to_native(x) for x in v["__tuple__"])
